@@ -2,6 +2,9 @@
 package props
 
 import (
+	"os"
+	"path/filepath"
+
 	"github.com/apparentlymart/go-versions/versions"
 )
 
@@ -11,4 +14,38 @@ func mustVersion(s string) versions.Version {
 		panic(err)
 	}
 	return v
+}
+
+// spelledDir returns one of several spellings of the clean absolute directory
+// path dir (which must exist when k selects a relative spelling): clean,
+// trailing separator, dot segment, doubled separator, a "x/.." detour through
+// an existing sibling name, and relative to the working directory.
+func spelledDir(dir string, k uint64) (arg string, restore func()) {
+	parent, base := filepath.Dir(dir), filepath.Base(dir)
+	restore = func() {}
+	switch k % 8 {
+	case 1:
+		return dir + "/", restore
+	case 2:
+		return dir + "/.", restore
+	case 3:
+		return parent + "//" + base, restore
+	case 4:
+		return parent + "/./" + base + "//", restore
+	case 5:
+		return parent + "/" + base + "/../" + base, restore
+	case 6:
+		cwd, err := os.Getwd()
+		if err != nil || os.Chdir(parent) != nil {
+			return dir, restore
+		}
+		return base, func() { os.Chdir(cwd) }
+	case 7:
+		cwd, err := os.Getwd()
+		if err != nil || os.Chdir(dir) != nil {
+			return dir, restore
+		}
+		return ".", func() { os.Chdir(cwd) }
+	}
+	return dir, restore
 }
